@@ -13,7 +13,7 @@ def run(ctx):
     seeds = [ctx.seed] if not ctx.thorough else [ctx.seed + i for i in range(4)]
     simple.run(ctx, go_cmds=['trace', 'corrposeidon'], lean_targets=['Smtb.Properties.C05'],
                prop_file='Smtb/Properties/C05.lean', theorems=THEOREMS,
-               gates=True, trace_targets=[['Poseidon1'], ['Poseidon2']],
+               gates=True, trace_targets=[['Poseidon1'], ['Poseidon2']], kernel_family='Poseidon',
                corr_runs=[('corrposeidon', ['-seed', s, '-n', n]) for s in seeds],
                search_runs=[('corrposeidon', ['-seed', ctx.seed + 50 + i, '-n', 20000]) for i in range(2)],
                corr_name='poseidon', driver_args=['corr', 'poseidon'], const={'tables': 'ok'},
